@@ -124,6 +124,8 @@ Definition ca_accepts (tus : list string) (clients : list client) (nw : Z) (st :
   exists j e,
     ca_pre_spec tus clients nw a cid j /\
     to_int64 (ca_exp a) = Some e /\
+    (* the expiry instant has not passed (the instant the replay memory uses; fix 3e32ae1) *)
+    nw <= e * 1000 /\
     (* the replay memory holds no entry for j that is not past its own exp *)
     jget (purge nw st) j = None /\ st' = (j, e) :: purge nw st /\
     aud_contains (ca_aud a) tus.
@@ -139,17 +141,20 @@ Proof.
       injection Hp as <-.
       destruct (aud_matches (ca_aud a) tus) eqn:Haud; [|discriminate]. injection Hpost as <- <-.
       split; [reflexivity|]. destruct (to_int64 (ca_exp a)) as [e0|] eqn:He; [|discriminate].
+      destruct (before_now nw e0) eqn:Hb; [discriminate|]. apply not_before_iff in Hb.
       injection Hm as <-. apply jti_set_ok_inv in Hs as [Hn ->].
       exists j, e0. split; [now apply ca_pre_iff|]. repeat split; try assumption. now apply aud_matches_iff.
-  - intros [-> [j [e [Hpre [He [Hn [-> Haud]]]]]]].
-    apply ca_pre_iff in Hpre. apply aud_matches_iff in Haud.
+  - intros [-> [j [e [Hpre [He [Hle [Hn [-> Haud]]]]]]]].
+    apply ca_pre_iff in Hpre. apply aud_matches_iff in Haud. apply not_before_iff in Hle.
     unfold ca_flow. rewrite Hpre. unfold run_flow. cbn [f_pre f_mid f_post f_kerr].
     assert (Hset : jti_set nw st j e = ((j, e) :: purge nw st, true)) by (unfold jti_set; now rewrite Hn).
-    rewrite (set_ok_implies_valid _ _ _ _ _ Hset). cbn [negb]. rewrite He, Hset, Haud. reflexivity.
+    rewrite (set_ok_implies_valid _ _ _ _ _ Hset). cbn [negb]. rewrite He, Hle, Hset, Haud. reflexivity.
 Qed.
 
-(* The first sentence of the property, clause by clause, for every input.  [unexpired] is stated as
-   the code implements it: the clause "it is unexpired" holds except for exp = 0 (refutation below). *)
+(* The first sentence of the property, clause by clause, for every input, at full strength: the
+   assertion is unexpired at the instant of acceptance for every representation of exp (int64,
+   float64, 0, fractions): the expiry instant exp*1000 ms has not passed, hence also the second
+   named by exp has not. *)
 Theorem client_assertion_sound tus clients nw st a cid sub st' :
   client_auth tus clients nw st a = (st', Acc cid sub) ->
   exists c keys k j e,
@@ -164,18 +169,25 @@ Theorem client_assertion_sound tus clients nw st a cid sub st' :
     ca_iss a = JStr cid /\ ca_sub a = JStr cid /\
     (* aud contains the token endpoint URL *)
     aud_contains (ca_aud a) tus /\
-    (* exp is a number and not in the past (second granularity) -- or it is 0 *)
-    to_int64 (ca_exp a) = Some e /\ (unix nw <= e \/ e = 0) /\
+    (* exp is a number and its instant has not passed *)
+    to_int64 (ca_exp a) = Some e /\ nw <= e * 1000 /\ unix nw <= e /\
     (* jti is a non-empty string that the replay memory does not hold, and is recorded now *)
     ca_jti a = JStr j /\ j <> "" /\ jget (purge nw st) j = None /\ st' = (j, e) :: purge nw st.
 Proof.
-  intros H. apply client_auth_accept_iff in H as [_ [j [e [Hpre [He [Hn [Hst Haud]]]]]]].
+  intros H. apply client_auth_accept_iff in H as [_ [j [e [Hpre [He [Hle [Hn [Hst Haud]]]]]]]].
   destruct Hpre as (_ & _ & _ & _ & c & keys & rsa & k & Hc & _ & Hm & Ha & Hcls & Hk & Hf & Hv & Hcv & Hi & _ & _ & Hs & Hj & Hj0).
   apply find_public_key_sound in Hf as [Hin [Hu [Hty Hkid]]].
   exists c, keys, k, j, e. repeat split; try assumption.
   - destruct rsa; [left|right]; split; assumption.
-  - unfold claims_valid in Hcv. apply andb_true_iff in Hcv as [Hcv _]. apply andb_true_iff in Hcv as [Hcv _].
-    unfold verify_exp in Hcv. rewrite He in Hcv. destruct (Z.eqb_spec e 0); [now right|left; now apply Z.leb_le].
+  - unfold unix. apply Z.div_le_upper_bound; lia.
+Qed.
+
+Corollary client_assertion_unexpired tus clients nw st a cid sub st' :
+  client_auth tus clients nw st a = (st', Acc cid sub) ->
+  exists e, to_int64 (ca_exp a) = Some e /\ nw <= e * 1000.
+Proof.
+  intros H. apply client_assertion_sound in H as (c & keys & k & j & e & Hs).
+  exists e. tauto.
 Qed.
 
 (* ------------------------------------------------------------------ JWT-bearer grant *)
